@@ -653,8 +653,10 @@ Proof.
       destruct Hcase as [[-> ->]|[-> ->]]; cbn [Spec.oeq];
         rewrite ?(proj2 (keqb_eq a a) eq_refl), ?(proj2 (keqb_eq b b) eq_refl), ?Hne, ?Hne';
         reflexivity.
-    - rewrite !(others_app kof), !(others_cons kof), !(others_app kof), !(others_cons kof),
-              (others_keyed kof _ _ Hu), (others_keyed kof _ _ Hv). reflexivity.
+    - assert (Hmid : forall w z r, kof z = KKey w -> others (z :: r) = others r).
+      { intros w z r Hz. rewrite (others_cons kof), (others_keyed kof _ _ Hz). reflexivity. }
+      rewrite (others_app kof), (Hmid _ _ _ Hv), (others_app kof), (Hmid _ _ _ Hu).
+      rewrite (others_app kof), (Hmid _ _ _ Hu), (others_app kof), (Hmid _ _ _ Hv). reflexivity.
     - assert (Hfu : negb (key_is a u || key_is b u) = false).
       { unfold Seq.key_is. rewrite Hu.
         destruct Hcase as [[-> ->]|[-> ->]];
@@ -670,11 +672,11 @@ Proof.
   split; [reflexivity|]. split; [reflexivity|].
   destruct (Nat.lt_ge_cases i j) as [Hlt|Hge].
   - destruct (two_positions l i j x y Hlt Hx Hy) as (p & q & s & El & <- & <-).
-    rewrite El at 1 2 3. rewrite swap_nodes_split.
+    rewrite El. rewrite swap_nodes_split. rewrite <- El.
     apply (Hgen p q s x y a b El Hkx Hky). left. now split.
   - assert (Hlt : j < i) by lia.
     destruct (two_positions l j i y x Hlt Hy Hx) as (p & q & s & El & <- & <-).
-    rewrite El at 1 2 3. rewrite swap_nodes_sym, swap_nodes_split.
+    rewrite El. rewrite swap_nodes_sym, swap_nodes_split. rewrite <- El.
     apply (Hgen p q s y x b a El Hky Hkx). right. now split.
 Qed.
 
